@@ -659,7 +659,13 @@ class ListItem(BlockToken):
                 # ...or it's a new list item
                 marker_info = cls.parse_marker(next_line)
                 if marker_info is not None:
-                    next_marker = marker_info
+                    if List.same_marker_type(leader, marker_info[2]):
+                        next_marker = marker_info
+                    elif newline_count:
+                        # a list of another type starts here: this list ends, and the
+                        # blank lines before the marker do not belong to this item
+                        lines.backstep()
+                        del line_buffer[-newline_count:]
                     break
                 # ...or the line above it was blank
                 if newline_count:
